@@ -674,6 +674,16 @@ BODIES = [
     ("FMINDEX_locatePrefix", "StringDictionaryFMINDEX.cpp", "StringDictionaryFMINDEX::locatePrefix", 0),
     ("FMINDEX_locateSubstr", "StringDictionaryFMINDEX.cpp", "StringDictionaryFMINDEX::locateSubstr", 0),
     ("FMINDEX_build_ssa", "StringDictionaryFMINDEX.cpp", "StringDictionaryFMINDEX::build_ssa", 0),
+    ("RPFC_decodeString", "StringDictionaryRPFC.cpp", "StringDictionaryRPFC::decodeString", 0),
+    ("RPFC_decodeSymbol", "StringDictionaryRPFC.cpp", "StringDictionaryRPFC::decodeSymbol", 0),
+    ("RPFC_getHeader", "StringDictionaryRPFC.cpp", "StringDictionaryRPFC::getHeader", 0),
+    ("RPFC_locateBucket", "StringDictionaryRPFC.cpp", "StringDictionaryRPFC::locateBucket", 0),
+    ("RPFC_locate", "StringDictionaryRPFC.cpp", "StringDictionaryRPFC::locate", 0),
+    ("RPFC_extract", "StringDictionaryRPFC.cpp", "StringDictionaryRPFC::extract", 0),
+    ("RPFC_locatePrefix", "StringDictionaryRPFC.cpp", "StringDictionaryRPFC::locatePrefix", 0),
+    ("RPFC_locateBoundaryBuckets", "StringDictionaryRPFC.cpp", "StringDictionaryRPFC::locateBoundaryBuckets", 0),
+    ("RPFC_searchPrefix", "StringDictionaryRPFC.cpp", "StringDictionaryRPFC::searchPrefix", 0),
+    ("RPFC_searchDistinctPrefix", "StringDictionaryRPFC.cpp", "StringDictionaryRPFC::searchDistinctPrefix", 0),
 ]
 
 
